@@ -552,6 +552,9 @@ class GeckoAsyncSpaMan(ABC, AsyncTasks):
                     # A reset in the middle of a locate/connect pass makes that pass
                     # fail; the pump must survive it and try again
                     _LOGGER.exception("Exception in sequence pump, will try again")
+                    # The failed pass can leave a half-made state behind (e.g.
+                    # SPA_READY without a spa), so start the next one from IDLE
+                    await self.async_reset()
 
                 await asyncio.sleep(GeckoConstants.ASYNCIO_SLEEP_TIMEOUT_FOR_YIELD)
 
